@@ -76,6 +76,13 @@ func transTablesFor(versionConsts map[string]int64) *transTables {
 			"includesVersion":                    {lean: "includesVersion", t: tBool},
 			"(Dep).satisfies":                    {lean: "satisfies", t: tBool},
 			"cmp.Compare":                        {lean: "Trans.cmpCompare", t: tInt},
+			// path vetting (C18): the lexical path functions of Model/Path.lean and Model/Confine.lean
+			"filepath.Clean":    {lean: "Path.clean", t: tText},
+			"filepath.Dir":      {lean: "Path.dir", t: tText},
+			"filepath.Join":     {lean: "Path.join2", t: tText}, // two arguments (more do not type-check in Lean)
+			"filepath.Abs":      {lean: "Trans.absOfAbsolute", t: tText, optErr: true},
+			"strings.HasPrefix": {lean: "Confine.hasPrefix", t: tBool},
+			"strings.HasSuffix": {lean: "Confine.hasSuffix", t: tBool},
 		},
 		consts: map[string]constVal{
 			"versionAny": {"Dep.any", tDep}, "versionEqual": {"Dep.eq", tDep}, "versionGreater": {"Dep.gt", tDep},
@@ -85,6 +92,7 @@ func transTablesFor(versionConsts map[string]int64) *transTables {
 			"packageVersionPreModifierNone":  {"Generated.preNone", tNat},
 			"packageVersionPreModifierMax":   {"Generated.preMax", tNat},
 			"packageVersionPostModifierNone": {"Generated.postNone", tNat},
+			"string(filepath.Separator)":     {"Path.slash", tText},
 		},
 	}
 	// greater / equal / less: the values the code declares now
@@ -107,12 +115,22 @@ type transFile struct {
 
 func transFiles() []transFile {
 	const repoGo, versionGo = "pkg/apk/apk/repo.go", "pkg/apk/apk/version.go"
+	const commonGo, rwosfsGo, cacheGo = "pkg/apk/apk/common.go", "pkg/apk/fs/rwosfs.go", "pkg/apk/apk/cache.go"
+	within := func(n string) map[string]callVal { return map[string]callVal{"isWithin": {lean: n, t: tBool}} }
 	return []transFile{
+		{out: "TransConfine", imports: []string{"Apko.Model.Confine", "Apko.Model.TransPrelude"}, prefix: "common.go", targets: []transTarget{
+			{file: commonGo, fn: "isWithin", lean: "isWithinApk"},
+			{file: commonGo, fn: "sanitizeArchivePath", lean: "sanitizeArchivePath", calls: within("isWithinApk")},
+			{file: rwosfsGo, fn: "isWithin", lean: "isWithinFs"},
+			{file: rwosfsGo, fn: "sanitizePath", lean: "sanitizePath", calls: within("isWithinFs")},
+			{file: cacheGo, fn: "cacheDirFromFile", lean: "cacheDirFromFile"},
+			{file: cacheGo, fn: "cacheFileFromEtag", lean: "cacheFileFromEtag"},
+		}},
 		{out: "TransVersion", imports: []string{"Apko.Model.Version", "Apko.Model.TransPrelude"}, prefix: "version.go", targets: []transTarget{
 			{file: versionGo, fn: "includesVersion", lean: "includesVersion"},
 			{file: versionGo, fn: "versionDependency.satisfies", lean: "satisfies"},
 		}},
-		{out: "TransResolver", imports: []string{"Apko.Model.Resolver", "Apko.Model.TransPrelude", "Apko.Generated.TransVersion"}, prefix: "repo.go", targets: []transTarget{
+		{out: "TransResolver", imports: []string{"Apko.Model.Resolver", "Apko.Model.TransPreludeResolver", "Apko.Generated.TransVersion"}, prefix: "repo.go", targets: []transTarget{
 			{file: repoGo, fn: "PkgResolver.getDepVersionForName", lean: "getDepVersionForName"},
 			{file: repoGo, fn: "PkgResolver.comparePackages", lean: "comparePackages", closure: true},
 			{file: repoGo, fn: "PkgResolver.conflictingVersion", lean: "conflictingVersion"},
